@@ -498,6 +498,15 @@ func init() {
 				}
 			}
 			_ = counter
+			// ... or the name comes from a generator helper of the package: `name, n = gen(set, n)`
+			var gen *nameGen
+			if !okName && nameObj != nil {
+				if g := c.nameGenerator(u, loopStmt, nameObj); g != nil {
+					gen = g
+					okName = true
+					nameDetail = g.how
+				}
+			}
 			if okName {
 				obs = append(obs, mkOb(c, "MINIFY.symbol-map", u, "distinct names", assignStore, Proved, nameDetail, true))
 			} else {
@@ -523,6 +532,11 @@ func init() {
 				cut := fc.edgesEntailing(cls, func(v map[string]bool) bool { return v["$has:taken"] && !v["taken"] })
 				loc, lok := fc.Locate(assignStore)
 				fromInput := false
+				freshByGen := false
+				if gen != nil && gen.fresh && setObj == nil {
+					setObj = gen.setArg
+					freshByGen = true
+				}
 				if setObj != nil {
 					if dc, _, _ := definingCall(info, fd.Body, setObj); dc != nil {
 						for _, a := range dc.Args {
@@ -568,6 +582,8 @@ func init() {
 					}
 				}
 				switch {
+				case lok && freshByGen && fromInput:
+					obs = append(obs, mkOb(c, "MINIFY.symbol-map", u, "fresh names", assignStore, Proved, "the generator "+gen.fn.Name()+" returns a name only after `set[name]` was false, and the set passed is computed from the session's parsed input", true))
 				case lok && len(cut) > 0 && !fc.reachableAvoiding(loc.B, cut) && fromInput:
 					obs = append(obs, mkOb(c, "MINIFY.symbol-map", u, "fresh names", assignStore, Proved, "a name is assigned only after `"+setObj.Name()+"[name]` was false, and "+setObj.Name()+" is computed from the session's parsed input", true))
 				default:
@@ -671,6 +687,257 @@ func init() {
 }
 
 func strconvQuote(s string) string { return fmt.Sprintf("%q", s) }
+
+// nameGen summarises a generator helper `gen(set, last) (name, number)`.
+type nameGen struct {
+	fn     *types.Func
+	how    string
+	fresh  bool         // every return lies behind a false `set[name]` test
+	setArg types.Object // the caller's object passed as the set
+}
+
+// nameGenerator recognises, in the naming loop of u, the definition
+// `name, n = gen(set, n)` of nameObj by a helper of the package that
+//   - starts its number at <counter parameter> + k (k >= 1) and afterwards only increments it,
+//   - renders the name, at every definition, as <constant> + strconv.Itoa(number) or
+//     fmt.Sprintf(<constant with one integer verb>, number), re-rendering after every increment,
+//   - returns (name, number) on every return;
+// the caller passes its counter and stores the returned number back into it, and
+// the counter has no other writes than constant initialisation.  The numbers of
+// successive turns then strictly increase, so the names are pairwise distinct.
+func (c *Ctx) nameGenerator(u FuncUnit, loop *ast.RangeStmt, nameObj types.Object) *nameGen {
+	info := u.Pkg.TypesInfo
+	var call *ast.CallExpr
+	var def *ast.AssignStmt
+	ndefs := 0
+	ast.Inspect(u.Decl.Body, func(n ast.Node) bool {
+		as, ok := n.(*ast.AssignStmt)
+		if !ok {
+			return true
+		}
+		for _, l := range as.Lhs {
+			if identObj(info, l) == nameObj {
+				ndefs++
+				if len(as.Lhs) == 2 && len(as.Rhs) == 1 && identObj(info, as.Lhs[0]) == nameObj {
+					if ce, ok := ast.Unparen(as.Rhs[0]).(*ast.CallExpr); ok {
+						call, def = ce, as
+					}
+				}
+			}
+		}
+		return true
+	})
+	if call == nil || ndefs != 1 || def.Pos() < loop.Body.Pos() || def.End() > loop.Body.End() {
+		return nil
+	}
+	g := originOf(Callee(info, call))
+	if g == nil || g.Pkg() != u.Obj.Pkg() {
+		return nil
+	}
+	gd := c.declOf[g]
+	if gd == nil || gd.Body == nil {
+		return nil
+	}
+	ginfo := c.pkgOf[gd].TypesInfo
+	sig := g.Type().(*types.Signature)
+	if sig.Results().Len() != 2 || len(call.Args) != sig.Params().Len() {
+		return nil
+	}
+	// caller: the counter passed is the object that receives the second result
+	counter := identObj(info, def.Lhs[1])
+	ci := -1
+	var setArg types.Object
+	si := -1
+	for i, a := range call.Args {
+		if o := identObj(info, a); o != nil && o == counter {
+			ci = i
+		}
+		if tv, ok := info.Types[a]; ok {
+			if m, ok := tv.Type.Underlying().(*types.Map); ok && types.Identical(m.Elem(), types.Typ[types.Bool]) {
+				si, setArg = i, identObj(info, a)
+			}
+		}
+	}
+	if counter == nil || ci < 0 {
+		return nil
+	}
+	// the counter's other writes: constant definitions only
+	okCounter := true
+	ast.Inspect(u.Decl.Body, func(n ast.Node) bool {
+		switch x := n.(type) {
+		case *ast.AssignStmt:
+			if x == def {
+				return true
+			}
+			for i, l := range x.Lhs {
+				if identObj(info, l) == counter {
+					if len(x.Lhs) != len(x.Rhs) {
+						okCounter = false
+					} else if _, isC := intConst(info, x.Rhs[i]); !isC {
+						okCounter = false
+					}
+				}
+			}
+		case *ast.IncDecStmt:
+			if identObj(info, x.X) == counter && x.Tok != token.INC {
+				okCounter = false
+			}
+		case *ast.UnaryExpr:
+			if x.Op == token.AND && identObj(info, x.X) == counter {
+				okCounter = false
+			}
+		}
+		return true
+	})
+	if !okCounter {
+		return nil
+	}
+	cparam := sig.Params().At(ci)
+	// inside the generator
+	var number, name types.Object
+	okGen := true
+	ast.Inspect(gd.Body, func(n ast.Node) bool {
+		if rs, ok := n.(*ast.ReturnStmt); ok {
+			if len(rs.Results) != 2 {
+				okGen = false
+				return true
+			}
+			nm, nb := identObj(ginfo, rs.Results[0]), identObj(ginfo, rs.Results[1])
+			if nm == nil || nb == nil || (name != nil && nm != name) || (number != nil && nb != number) {
+				okGen = false
+			}
+			name, number = nm, nb
+		}
+		return true
+	})
+	if !okGen || name == nil || number == nil {
+		return nil
+	}
+	renders := func(e ast.Expr) bool {
+		e = ast.Unparen(e)
+		if be, ok := e.(*ast.BinaryExpr); ok && be.Op == token.ADD {
+			if _, isC := constStringVal(ginfo, be.X); isC {
+				if ce, ok := ast.Unparen(be.Y).(*ast.CallExpr); ok && stdFuncCalled(ginfo, ce, "strconv", "Itoa") && len(ce.Args) == 1 && identObj(ginfo, ce.Args[0]) == number {
+					return true
+				}
+			}
+			return false
+		}
+		if ce, ok := e.(*ast.CallExpr); ok && stdFuncCalled(ginfo, ce, "fmt", "Sprintf") && len(ce.Args) == 2 && identObj(ginfo, ce.Args[1]) == number {
+			if f, ok := constStringVal(ginfo, ce.Args[0]); ok {
+				vs := parseVerbs(f)
+				return len(vs) == 1 && strings.ContainsRune("dxXob", vs[0]) && !strings.Contains(f, ".")
+			}
+		}
+		return false
+	}
+	nNumDefs, nNameDefs := 0, 0
+	var shape string
+	ast.Inspect(gd.Body, func(n ast.Node) bool {
+		switch x := n.(type) {
+		case *ast.AssignStmt:
+			for i, l := range x.Lhs {
+				switch identObj(ginfo, l) {
+				case number:
+					nNumDefs++
+					// number := counter + k, k >= 1
+					ok := false
+					if len(x.Lhs) == len(x.Rhs) && nNumDefs == 1 {
+						if be, isB := ast.Unparen(x.Rhs[i]).(*ast.BinaryExpr); isB && be.Op == token.ADD {
+							if k, isC := intConst(ginfo, be.Y); isC && k >= 1 && identObj(ginfo, be.X) == cparam {
+								ok = true
+							}
+							if k, isC := intConst(ginfo, be.X); isC && k >= 1 && identObj(ginfo, be.Y) == cparam {
+								ok = true
+							}
+						}
+					}
+					if !ok {
+						okGen = false
+					}
+				case name:
+					nNameDefs++
+					if len(x.Lhs) != len(x.Rhs) || !renders(x.Rhs[i]) {
+						okGen = false
+					} else {
+						sh := types.ExprString(x.Rhs[i])
+						if shape != "" && sh != shape {
+							okGen = false
+						}
+						shape = sh
+					}
+				}
+			}
+		case *ast.IncDecStmt:
+			if identObj(ginfo, x.X) == number && x.Tok != token.INC {
+				okGen = false
+			}
+			if identObj(ginfo, x.X) == cparam {
+				okGen = false
+			}
+		case *ast.UnaryExpr:
+			if x.Op == token.AND && (identObj(ginfo, x.X) == number || identObj(ginfo, x.X) == name) {
+				okGen = false
+			}
+		}
+		return true
+	})
+	if !okGen || nNumDefs != 1 || nNameDefs == 0 {
+		return nil
+	}
+	// every increment of the number is followed, in its block, by a re-rendering of the name
+	gfc := c.cfgOf(FuncUnit{g, gd, c.pkgOf[gd]}, nil)
+	for _, b := range gfc.G.Blocks {
+		if !gfc.Live(b) {
+			continue
+		}
+		for i, n := range b.Nodes {
+			inc, ok := n.(*ast.IncDecStmt)
+			if !ok || identObj(ginfo, inc.X) != number {
+				continue
+			}
+			re := false
+			for _, m := range b.Nodes[i+1:] {
+				if as, ok := m.(*ast.AssignStmt); ok {
+					for _, l := range as.Lhs {
+						if identObj(ginfo, l) == name {
+							re = true
+						}
+					}
+				}
+			}
+			if !re {
+				return nil
+			}
+		}
+	}
+	out := &nameGen{fn: g, how: "the generator " + g.Name() + " renders a number that starts above the caller's counter and only grows, and the caller stores it back: pairwise distinct"}
+	// freshness: every return behind a false set[name]
+	if si >= 0 && setArg != nil {
+		sparam := sig.Params().At(si)
+		cls := func(e ast.Expr) (string, bool) {
+			ie, ok := ast.Unparen(e).(*ast.IndexExpr)
+			if ok && identObj(ginfo, ie.Index) == name && identObj(ginfo, ie.X) == sparam {
+				return "taken", false
+			}
+			return "", false
+		}
+		cut := gfc.edgesEntailing(cls, func(v map[string]bool) bool { return v["$has:taken"] && !v["taken"] })
+		fresh := len(cut) > 0
+		for _, b := range gfc.G.Blocks {
+			if !gfc.Live(b) {
+				continue
+			}
+			for _, n := range b.Nodes {
+				if _, ok := n.(*ast.ReturnStmt); ok && gfc.reachableAvoiding(b, cut) {
+					fresh = false
+				}
+			}
+		}
+		out.fresh, out.setArg = fresh, setArg
+	}
+	return out
+}
 
 func init() {
 	register(&Rule{ID: "PKGTRACK.export-with-package", Floor: 4,
@@ -1062,7 +1329,42 @@ func init() {
 				rs, ok := n.(*ast.RangeStmt)
 				return ok && identObj(info, rs.X) == files
 			}
-			// decision loop: the file loop whose body preserves
+			isFilesType := func(t types.Type) bool {
+				sl, ok := t.Underlying().(*types.Slice)
+				if !ok {
+					return false
+				}
+				n, ok := sl.Elem().(*types.Named)
+				return ok && n.Obj().Name() == "parsedFile"
+			}
+			// private helpers of the package called (transitively, depth 3) from a node
+			type helperUse struct {
+				u    FuncUnit
+				call *ast.CallExpr // the call in fd's body (or in an outer helper) that enters it
+			}
+			var helpersIn func(root ast.Node, rinfo *types.Info, depth int, seen map[*types.Func]bool) []helperUse
+			helpersIn = func(root ast.Node, rinfo *types.Info, depth int, seen map[*types.Func]bool) []helperUse {
+				var out []helperUse
+				if depth > 3 {
+					return out
+				}
+				for _, ce := range callsIn(root, false) {
+					h := originOf(Callee(rinfo, ce))
+					if h == nil || h.Pkg() != fn.Pkg() || seen[h] || h == fn || h == p1 || h == p2 {
+						continue // the preserve actions themselves are not part of the decision
+					}
+					hd := c.declOf[h]
+					if hd == nil || hd.Body == nil {
+						continue
+					}
+					seen[h] = true
+					hu := FuncUnit{h, hd, c.pkgOf[hd]}
+					out = append(out, helperUse{hu, ce})
+					out = append(out, helpersIn(hd.Body, hu.Pkg.TypesInfo, depth+1, seen)...)
+				}
+				return out
+			}
+			// decision loop: the file loop whose body preserves (itself or through a helper)
 			var decision *ast.RangeStmt
 			var fileLoops []*ast.RangeStmt
 			for _, st := range fd.Body.List {
@@ -1071,18 +1373,105 @@ func init() {
 				}
 				rs := st.(*ast.RangeStmt)
 				fileLoops = append(fileLoops, rs)
+				preserves := false
 				for _, ce := range callsIn(rs.Body, false) {
 					if f := originOf(Callee(info, ce)); f == p1 || f == p2 {
-						if decision == nil {
-							decision = rs
+						preserves = true
+					}
+				}
+				for _, hu := range helpersIn(rs.Body, info, 0, map[*types.Func]bool{}) {
+					for _, ce := range callsIn(hu.u.Decl.Body, false) {
+						if f := originOf(Callee(hu.u.Pkg.TypesInfo, ce)); f == p1 || f == p2 {
+							preserves = true
 						}
 					}
+				}
+				if preserves && decision == nil {
+					decision = rs
 				}
 			}
 			if decision == nil {
 				return []Obligation{mkOb(c, rid, u, "decision loop", fd, Undecided, "no top-level loop over the files that calls preserveNodeSymbol / preserveQualifiedDefinitionNode was found", true)}
 			}
-			// local maps read inside the decision loop
+			// the two phases: what runs before the decision loop (statements of this function and
+			// the private helpers they call) and what runs inside it
+			type region struct {
+				info  *types.Info
+				root  ast.Node
+				loops []*ast.RangeStmt // loops over ALL files inside root
+			}
+			var phase1, phase2 []region
+			for _, st := range fd.Body.List {
+				if st.End() <= decision.Pos() {
+					r := region{info: info, root: st}
+					if rs, ok := st.(*ast.RangeStmt); ok && overFiles(rs) {
+						r.loops = append(r.loops, rs)
+					}
+					phase1 = append(phase1, r)
+					for _, hu := range helpersIn(st, info, 0, map[*types.Func]bool{}) {
+						hinfo := hu.u.Pkg.TypesInfo
+						hr := region{info: hinfo, root: hu.u.Decl.Body}
+						// loops over a []parsedFile parameter that receives this function's files
+						sig := hu.u.Obj.Type().(*types.Signature)
+						for i := 0; i < sig.Params().Len(); i++ {
+							pv := sig.Params().At(i)
+							if !isFilesType(pv.Type()) || i >= len(hu.call.Args) {
+								continue
+							}
+							if identObj(info, hu.call.Args[i]) != files {
+								continue
+							}
+							ast.Inspect(hu.u.Decl.Body, func(n ast.Node) bool {
+								if rs, ok := n.(*ast.RangeStmt); ok && identObj(hinfo, rs.X) == pv {
+									hr.loops = append(hr.loops, rs)
+								}
+								return true
+							})
+						}
+						phase1 = append(phase1, hr)
+					}
+				}
+			}
+			phase2 = append(phase2, region{info: info, root: decision.Body})
+			for _, hu := range helpersIn(decision.Body, info, 0, map[*types.Func]bool{}) {
+				phase2 = append(phase2, region{info: hu.u.Pkg.TypesInfo, root: hu.u.Decl.Body})
+			}
+			// late statements of this function (after the decision loop) count as phase 2 too
+			for _, st := range fd.Body.List {
+				if st.Pos() >= decision.End() {
+					phase2 = append(phase2, region{info: info, root: st})
+				}
+			}
+			// a map is named by its storage: a local of this function, or a struct field
+			mapKey := func(ri *types.Info, e ast.Expr) types.Object {
+				e = ast.Unparen(e)
+				var o types.Object
+				switch x := e.(type) {
+				case *ast.Ident:
+					o = ri.Uses[x]
+					if o == nil {
+						o = ri.Defs[x]
+					}
+					if v, ok := o.(*types.Var); !ok || v.IsField() || v.Parent() == nil || v.Pkg() == nil || v.Parent() == v.Pkg().Scope() {
+						return nil
+					}
+					if o.Pos() < fd.Body.Pos() || o.Pos() > decision.Pos() {
+						return nil // not a local of this function declared before the loop
+					}
+				case *ast.SelectorExpr:
+					o = FieldOfSelector(ri, x)
+					if o == nil {
+						return nil
+					}
+				default:
+					return nil
+				}
+				if _, ok := o.Type().Underlying().(*types.Map); !ok {
+					return nil
+				}
+				return o
+			}
+			// maps read inside the decision phase
 			type mapUse struct {
 				obj         types.Object
 				fillsBefore []ast.Node
@@ -1092,85 +1481,95 @@ func init() {
 				viaCount    bool
 			}
 			uses := map[types.Object]*mapUse{}
-			ast.Inspect(decision.Body, func(n ast.Node) bool {
-				ix, ok := n.(*ast.IndexExpr)
-				if !ok {
-					return true
-				}
-				o := identObj(info, ix.X)
-				if o == nil || o.Parent() == nil || o.Pkg() == nil {
-					return true
-				}
-				if _, ok := o.Type().Underlying().(*types.Map); !ok {
-					return true
-				}
-				if o.Pos() < fd.Body.Pos() || o.Pos() > decision.Pos() {
-					return true // not a local declared before the loop
-				}
-				if uses[o] == nil {
-					uses[o] = &mapUse{obj: o}
-				}
-				return true
-			})
-			record := func(mu *mapUse, n ast.Node, callee *types.Func) {
-				if n.Pos() >= decision.Pos() && n.End() <= decision.End() || n.Pos() > decision.End() {
-					mu.fillsLate = append(mu.fillsLate, n)
-					return
-				}
-				// must sit in a loop over all files
-				in := false
-				for _, fl := range fileLoops {
-					if fl != decision && n.Pos() >= fl.Pos() && n.End() <= fl.End() {
-						in = true
-					}
-				}
-				if !in {
-					mu.fillsLate = append(mu.fillsLate, n)
-					return
-				}
-				mu.fillsBefore = append(mu.fillsBefore, n)
-				if callee != nil {
-					if callee == expN || reachExp[callee] {
-						mu.viaExp = true
-					}
-					if callee == qual || reachQual[callee] {
-						mu.viaQual = true
-					}
-					// a counting fill: the callee increments an element of a map parameter
-					for _, fu := range c.Funcs(inMin) {
-						if fu.Obj != callee || fu.Decl == nil {
-							continue
+			for _, r := range phase2 {
+				ast.Inspect(r.root, func(n ast.Node) bool {
+					if ix, ok := n.(*ast.IndexExpr); ok {
+						if o := mapKey(r.info, ix.X); o != nil && uses[o] == nil {
+							uses[o] = &mapUse{obj: o}
 						}
-						ast.Inspect(fu.Decl.Body, func(k ast.Node) bool {
-							if ids, ok := k.(*ast.IncDecStmt); ok && ids.Tok == token.INC {
-								if _, isIx := ast.Unparen(ids.X).(*ast.IndexExpr); isIx {
-									mu.viaCount = true
-								}
-							}
-							return true
-						})
 					}
+					return true
+				})
+			}
+			noteCallee := func(mu *mapUse, callee *types.Func) {
+				if callee == nil {
+					return
+				}
+				if callee == expN || reachExp[callee] {
+					mu.viaExp = true
+				}
+				if callee == qual || reachQual[callee] {
+					mu.viaQual = true
+				}
+				// a counting fill: the callee increments an element of a map parameter
+				if cd := c.declOf[callee]; cd != nil && cd.Body != nil && callee.Pkg() == fn.Pkg() {
+					ast.Inspect(cd.Body, func(k ast.Node) bool {
+						if ids, ok := k.(*ast.IncDecStmt); ok && ids.Tok == token.INC {
+							if _, isIx := ast.Unparen(ids.X).(*ast.IndexExpr); isIx {
+								mu.viaCount = true
+							}
+						}
+						return true
+					})
 				}
 			}
-			ast.Inspect(fd.Body, func(n ast.Node) bool {
-				switch x := n.(type) {
-				case *ast.CallExpr:
-					for _, a := range x.Args {
-						if mu := uses[identObj(info, a)]; mu != nil {
-							record(mu, x, originOf(Callee(info, x)))
+			scanFills := func(r region, late bool) {
+				inLoop := func(n ast.Node) bool {
+					for _, fl := range r.loops {
+						if n.Pos() >= fl.Pos() && n.End() <= fl.End() {
+							return true
 						}
 					}
-				case *ast.AssignStmt:
-					for _, l := range x.Lhs {
-						if ix, ok := ast.Unparen(l).(*ast.IndexExpr); ok {
-							if mu := uses[identObj(info, ix.X)]; mu != nil {
-								record(mu, x, nil)
+					return false
+				}
+				ast.Inspect(r.root, func(n ast.Node) bool {
+					switch x := n.(type) {
+					case *ast.CallExpr:
+						for _, a := range x.Args {
+							if mu := uses[mapKey(r.info, a)]; mu != nil {
+								if late || !inLoop(x) {
+									mu.fillsLate = append(mu.fillsLate, x)
+								} else {
+									mu.fillsBefore = append(mu.fillsBefore, x)
+									noteCallee(mu, originOf(Callee(r.info, x)))
+								}
+							}
+						}
+					case *ast.AssignStmt:
+						for _, l := range x.Lhs {
+							if ix, ok := ast.Unparen(l).(*ast.IndexExpr); ok {
+								if mu := uses[mapKey(r.info, ix.X)]; mu != nil {
+									if late || !inLoop(x) {
+										mu.fillsLate = append(mu.fillsLate, x)
+									} else {
+										mu.fillsBefore = append(mu.fillsBefore, x)
+									}
+								}
+							}
+						}
+					case *ast.IncDecStmt:
+						if ix, ok := ast.Unparen(x.X).(*ast.IndexExpr); ok {
+							if mu := uses[mapKey(r.info, ix.X)]; mu != nil {
+								if late || !inLoop(x) {
+									mu.fillsLate = append(mu.fillsLate, x)
+								} else {
+									mu.fillsBefore = append(mu.fillsBefore, x)
+									if x.Tok == token.INC {
+										mu.viaCount = true
+									}
+								}
 							}
 						}
 					}
-				}
-				return true
-			})
+					return true
+				})
+			}
+			for _, r := range phase1 {
+				scanFills(r, false)
+			}
+			for _, r := range phase2 {
+				scanFills(r, true)
+			}
 			var obs []Obligation
 			haveExp, haveQual, haveCount := false, false, false
 			names := []string{}
